@@ -431,6 +431,9 @@ func (ex *Exec) applyCall(st *State, fr *Frame, c *ssa.CallCommon, fc *FuncContr
 	clockBefore := st.heap.clock
 	st.heap.clock++ // room for objects the callee allocates
 	if fc == nil {
+		if r, ok := ex.protoGetter(st, c, args); ok {
+			return []Term{r}
+		}
 		pol := ex.policyFor(c)
 		switch pol {
 		case "pure":
@@ -960,4 +963,52 @@ func (ex *Exec) funcTypeContract(c *ssa.CallCommon) (*FuncContract, bool) {
 		}
 	}
 	return nil, false
+}
+
+// protoGetter: generated protobuf getters `func (x *T) GetF() FT { if x != nil { return x.F }; return zero }`
+// of packages that are not loaded from source are modelled by that definition
+// (assumption about generated code, reported in the notes).
+func (ex *Exec) protoGetter(st *State, c *ssa.CallCommon, args []Term) (Term, bool) {
+	if c.IsInvoke() {
+		return Term{}, false
+	}
+	fn := c.StaticCallee()
+	if fn == nil || len(fn.Blocks) > 0 || !strings.HasPrefix(fn.Name(), "Get") || len(args) != 1 {
+		return Term{}, false
+	}
+	sig := fn.Signature
+	if sig.Recv() == nil || sig.Params().Len() != 0 || sig.Results().Len() != 1 {
+		return Term{}, false
+	}
+	pt, ok := sig.Recv().Type().Underlying().(*types.Pointer)
+	if !ok {
+		return Term{}, false
+	}
+	stt, ok := asStruct(pt.Elem())
+	if !ok {
+		return Term{}, false
+	}
+	// generated messages carry the protoimpl state fields
+	isProto := false
+	for i := 0; i < stt.NumFields(); i++ {
+		if stt.Field(i).Name() == "sizeCache" || stt.Field(i).Name() == "unknownFields" {
+			isProto = true
+		}
+	}
+	if !isProto {
+		return Term{}, false
+	}
+	fname := strings.TrimPrefix(fn.Name(), "Get")
+	for i := 0; i < stt.NumFields(); i++ {
+		f := stt.Field(i)
+		if f.Name() != fname || !types.Identical(f.Type(), sig.Results().At(0).Type()) {
+			continue
+		}
+		ex.w.Note("generated protobuf getter modelled by its definition: " + fn.String())
+		addr := ex.fieldAddr(args[0], pt.Elem(), i)
+		v := ex.load(st, st.heap, addr, f.Type())
+		ex.assumeTyped(st, v, f.Type())
+		return Ite(Eq(args[0], TNil), ex.w.Zero(f.Type()), v), true
+	}
+	return Term{}, false
 }
